@@ -66,6 +66,9 @@ func newParsed(der []byte) *x509.Certificate {
 }
 
 func verif_x509_Parse(der []byte) (*x509.Certificate, error) {
+	if !verifActive() {
+		return x509.ParseCertificate(der) // outside a harness run (the package's test initialisers): the real function
+	}
 	if verifSplitInt("parseOK", 0, 1) == 0 {
 		return nil, errors.New("verif: malformed certificate")
 	}
@@ -81,6 +84,9 @@ func (cc *certCache) newCert(der []byte) (*activeCert, error) {
 }
 
 func verif_x509_Verify(c *x509.Certificate, opts x509.VerifyOptions) ([][]*x509.Certificate, error) {
+	if !verifActive() {
+		return c.Verify(opts)
+	}
 	i := vx.n
 	if i >= len(vx.calls) {
 		verifAssume(false)
@@ -100,6 +106,10 @@ func verif_x509_Verify(c *x509.Certificate, opts x509.VerifyOptions) ([][]*x509.
 }
 
 func verif_x509_AddCert(p *x509.CertPool, c *x509.Certificate) {
+	if !verifActive() {
+		p.AddCert(c)
+		return
+	}
 	if vx.na < len(vx.added) {
 		vx.added[vx.na] = c
 		vx.addedTo[vx.na] = p
